@@ -352,6 +352,15 @@ def parser_grid_search(log):
                 except ValueError:
                     want = 'ERR'
                 cases.append((src, want))
+    # a prefix `not` as the right operand: only `and` / `or` (and another `not`) may be followed by it
+    for o1 in ops:
+        for expr in ('a %s not b' % o1, 'a %s not b %s c' % (o1, o1), 'not a %s not b' % o1):
+            try:
+                tree = ast.parse(expr, mode='eval').body
+                want = 'OK x = ' + show(tree)
+            except (ValueError, SyntaxError):
+                want = 'ERR'
+            cases.append(('x = ' + expr, want))
     path = os.path.join(HERE, '.work', 'parse_in.star')
     open(path, 'w').write('\n'.join(c[0] for c in cases) + '\n')
     p = subprocess.run([BIN, 'parsefile', path], capture_output=True, text=True, timeout=300)
@@ -436,13 +445,13 @@ def find_witness(prop, v, repo, log):
         r = float_to_int_grid_search(log)
         r['search'] = 'int(f) for doubles around 2^k (k up to 200) and their neighbours on the real library vs Python'
         return r
+    if 'C09.hash' in oid or 'get_hash' in fn or 'write_hash' in fn:
+        r = hash_grid_search(log)
+        r['search'] = 'n vs float(n) for exactly representable n around 2^k: equality and dict-key interchangeability on the real library'
+        return r
     if 'C09.cmp.' in oid or 'NumRef' in fn:
         r = int_float_grid_search(log)
         r['search'] = 'ints around 2^31..2^100 x floats around the same powers (+inf, -inf, nan): ==, < on the real library vs exact comparison'
-        return r
-    if 'C09.hash.' in oid or 'get_hash' in fn or 'write_hash' in fn:
-        r = hash_grid_search(log)
-        r['search'] = 'n vs float(n) for exactly representable n around 2^k: equality and dict-key interchangeability on the real library'
         return r
     if prop in ('C10', 'C09') and ('C10.' in oid or 'C09.' in oid or 'Starlark' in fn or 'InlineInt' in fn):
         op = op_for_obligation(oid, fn)
